@@ -652,10 +652,19 @@ pub fn eval_group(c: &GroupCase) -> Outcome {
     let bytes = match write_group_bytes(&g, ver) {
         Ok(b) => b,
         Err(f) => {
-            o.fails.push(f);
+            // a liquid grid without vertices in one direction has no on-disk form (the format stores
+            // width-1 × height-1 tiles): refusing it with an error is the right answer, a panic is not
+            let empty_grid = c.liquid.as_ref().is_some_and(|l| l.w == 0 || l.h == 0);
+            if !(empty_grid && f.signature == "group-write-error") {
+                o.fails.push(f);
+            }
             return o;
         }
     };
+    if c.liquid.as_ref().is_some_and(|l| l.w == 0 || l.h == 0) {
+        push(&mut o.fails, "group-empty-liquid-grid-written", "write_group accepted a liquid grid with 0 vertices in one direction (stored as width-1 / height-1)".to_string());
+        return o;
+    }
     let w = walk::judge_group(&bytes, c);
     o.fails.extend(w.fails.iter().cloned());
     // clause 1: the legacy group parser (the only one that returns the writer's input type)
